@@ -839,3 +839,132 @@ def freeze_tie(ctx, env, om, n):
             bad += 1
             if bad >= 5:
                 break
+
+
+# ----------------------------------------------------------------------------- DiagonalReplicated with a Lean model
+# (Model/OpAlg.lean: drep; theorems C05_drep_blocks, C12_drep_meta)
+
+
+def gen_drep_case(rng, thorough=False):
+    import opalg_trees as T
+
+    one = str(rng.choice(G.DTS, p=[0.1, 0.45, 0.1, 0.35]))
+    dt_of = (lambda: one) if rng.random() < 0.9 else (lambda: str(rng.choice(G.DTS)))
+    plain = [[1], [2], [3], [1, 2], [2, 1], [2, 2], [2, 3], [3, 2]]
+    insh = plain[int(rng.integers(len(plain)))] if rng.random() < 0.94 else [[1], [2]]
+    outsh = plain[int(rng.integers(len(plain)))] if rng.random() < 0.94 else [[2], [1]]
+    lin = bool(rng.random() < 0.85)
+    e = T.tree(rng, int(rng.choice([1, 1, 2])), insh, outsh, dt_of, p_bad=0.0, allow_nonlin=(not lin) or rng.random() < 0.05)
+    di = len(insh)
+    do = len(outsh)
+    wide = rng.random() < 0.15  # out-of-range axes
+    ia = int(rng.integers(-di - 2, di + 2)) if wide else int(rng.integers(-di - 1, di + 1))
+    oa = None if rng.random() < 0.3 else (int(rng.integers(-do - 2, do + 2)) if wide else int(rng.integers(-do - 1, do + 1)))
+    return {"e": e, "lin": lin, "N": int(rng.integers(1, 4)), "ia": ia, "oa": oa}
+
+
+def observe_drep(env, case, xs, ys):
+    from scico import operator as sop
+
+    try:
+        o = env.build(case["e"])
+        mod = env.linop if case["lin"] else sop
+        R = mod.DiagonalReplicated(o, case["N"], input_axis=case["ia"], output_axis=case["oa"], map_type="vmap")
+    except Exception as ex:  # noqa: BLE001
+        return ("err", common.err_kind(ex), repr(ex)[:200])
+    r = _observe_op(env, R, xs)
+    ad, addt = [], None
+    if case["lin"]:
+        for y in ys:
+            try:
+                z = R.adj(env.to_array(y, r[1]["out_shape"], r[1]["out_dtype"]))
+                ad.append(env.flat(z))
+                addt = np.dtype(z.dtype).name
+                if G.lst(z.shape) != r[1]["in_shape"]:
+                    addt = "shape:" + str(G.lst(z.shape))
+            except Exception as ex:  # noqa: BLE001
+                ad.append(("err", common.err_kind(ex), repr(ex)[:160]))
+                addt = "err:" + common.err_kind(ex)
+    r[1]["adj"], r[1]["adj_dt"] = ad, addt
+    r[1]["cls"] = "LinearOperator" if case["lin"] else "Operator"  # stack classes override no arithmetic
+    return r
+
+
+def drep_tie(ctx, env, om, n):
+    """correspondence of the Lean model of DiagonalReplicated with the real objects"""
+    import json
+
+    bad = 0
+    for _ in range(n):
+        case = gen_drep_case(ctx.rng, ctx.thorough)
+        impl = observe_drep(env, case, [], [])
+        xs = ys = []
+        if impl[0] == "ok":
+            m_, n_ = impl[1]["matrix_shape"]
+            xs = [vals(ctx.rng, (n_,), G.is_cplx(impl[1]["in_dtype"])).astype(np.complex128) for _ in range(2)]
+            ys = [vals(ctx.rng, (m_,), G.is_cplx(impl[1]["out_dtype"])).astype(np.complex128) for _ in range(2)]
+            impl = observe_drep(env, case, xs, ys)
+        try:
+            r = om.call("drep", e=case["e"], lin=case["lin"], N=case["N"], ia=case["ia"], oa=case["oa"],
+                        xs=[G.encs(x) for x in xs], ys=[G.encs(y) for y in ys])
+            r["eval"] = [G.decs(v) for v in r["eval"]]
+            r["adj"] = [G.decs(v) for v in r["adj"]]
+            mod = ("ok", r)
+        except common.ModelErr as ex:
+            mod = ("err", ex.kind)
+        e = case["e"]
+        uni = G.kind_uniform(e)
+        tol = G.tol_of(e) * (10 if G.has_nonlin(e) else 1)
+        if impl[0] == "ok" and mod[0] == "ok" and not (uni or not G.uses_adjoint(e)):
+            impl[1]["eval"], mod[1]["eval"] = [], []
+        diffs = _compare_op(impl, mod, tol)
+        if not diffs and impl[0] == "ok" and case["lin"]:
+            a, b = impl[1], mod[1]
+            if a["adj_dt"] is not None and a["adj_dt"] != b["adj_dt"]:
+                diffs.append(("adj_dt", a["adj_dt"], b["adj_dt"]))
+            elif uni:
+                kk = max(4, a["matrix_shape"][0] * a["matrix_shape"][1])
+                for i, (u, v) in enumerate(zip(a["adj"], b["adj"])):
+                    if not isinstance(u, tuple) and not G.vec_close(u, v, tol, kk):
+                        diffs.append((f"adj[{i}]", [complex(z) for z in u], [complex(z) for z in v]))
+                        break
+        key = ("drep", case["lin"], case["N"], case["ia"], case["oa"], G.skeleton(e))
+        ctx.case({"what": "DiagonalReplicated", "key": str(key)[:200]}, key, sample_every=150)
+        ctx.count("DiagonalReplicated" + (":rejected:" + impl[1] if impl[0] == "err" else ":ok") + ("" if case["lin"] else ":op"))
+        if impl[0] == "ok":
+            ctx.count("DiagonalReplicated:axes " + ("in<0 " if case["ia"] < 0 else "") + ("out=None" if case["oa"] is None else ("out<0" if case["oa"] < 0 else "out>=0")))
+        if diffs:
+            d = diffs[0]
+
+            def orc(c, impl=impl, case=case):
+                # the property on the implementation: declared shapes are the returned ones (forward and adjoint), and
+                # H(x)_k = A(x_k) along the replicate axes
+                if impl[0] != "ok":
+                    return None
+                info, R = impl[1], impl[2]
+                decl = {k: info[k] for k in ("in_shape", "out_shape", "in_dtype", "out_dtype")}
+                x0 = vals(np.random.Generator(np.random.PCG64(3)), (G.size(info["in_shape"]),), G.is_cplx(info["in_dtype"]))
+                try:
+                    X = env.to_array(x0, info["in_shape"], info["in_dtype"])
+                    y = R(X)
+                except Exception as ex:  # noqa: BLE001
+                    return {"what": "DiagonalReplicated", "declared": decl, "evaluation_raised": repr(ex)[:200]}
+                if G.lst(y.shape) != info["out_shape"] or np.dtype(y.dtype).name != info["out_dtype"]:
+                    return {"what": "DiagonalReplicated", "declared": decl, "returned": [G.lst(y.shape), np.dtype(y.dtype).name]}
+                try:
+                    A = env.build(case["e"])
+                    ia = case["ia"] if case["ia"] >= 0 else len(A.input_shape) + 1 + case["ia"]
+                    oa = ia if case["oa"] is None else (case["oa"] if case["oa"] >= 0 else len(A.output_shape) + 1 + case["oa"])
+                    want = np.stack([np.asarray(A(env.jnp.take(X, k, axis=ia))) for k in range(case["N"])], axis=oa)
+                except Exception:  # noqa: BLE001
+                    return None
+                if want.shape != tuple(y.shape) or not G.vec_close(np.asarray(y).ravel(), want.ravel(), 1e-6, max(4, want.size)):
+                    return {"what": "DiagonalReplicated", "x": [str(complex(v)) for v in x0], "returned": np.asarray(y).ravel().tolist().__repr__()[:300],
+                            "blocks_A(x_k)_stacked": want.ravel().tolist().__repr__()[:300]}
+                return None
+
+            ctx.disagree("opalg.DiagonalReplicated:" + d[0], {"case": json.loads(json.dumps(case))}, json.loads(json.dumps(d[1], default=str)),
+                         json.loads(json.dumps(d[2], default=str)), oracle=orc)
+            bad += 1
+            if bad >= 5:
+                break
